@@ -5,7 +5,12 @@ an explicit schedule of start/next/abandon steps (all interleavings up to a leng
 Observation per step: the element index returned, `stop`, or the exception class.
 Stream B (`multi`): arbitrary generated queries (C01's generator) sharing their variables, evaluated one after the
 other, each evaluation consuming k results before it is abandoned. Observation per evaluation: its row sequence.
-Specification for both: what the same query yields when run alone on a fresh query object."""
+Stream C (`rhist`): ONE rule query object (a C08 rule program: refinement / alternative / next_rule blocks, one
+`Add(views, inference(K_c)(src=x))` per block) under a history of `start | next | abandon | full | grow` steps: evaluations
+consumed step by step, abandoned at a `yield`, overlapping, and the rule tree grown by further `with query:` blocks between
+evaluations. Observation per step RELATIVE to the isolated run (the same `with` blocks written on a fresh query, evaluated
+alone): `=` / `!row` / `!stop` / `![rows]`. Model: `RuleHist.model` (Model/RuleHistory.lean).
+Specification for all: what the same query yields when run alone on a fresh query object."""
 from __future__ import annotations
 
 import itertools
@@ -15,7 +20,7 @@ import eqlgen as G
 from core import Case
 
 PID = "C03"
-LEAN_MODULES = ["KrroodVerif.Props.C03"]
+LEAN_MODULES = ["KrroodVerif.Props.C03", "KrroodVerif.Props.C03Rules"]
 THEOREMS = [
     "KrroodVerif.Dom.C03_sequential_partial",
     "KrroodVerif.Dom.C03_nonoverlap_partial",
@@ -27,21 +32,37 @@ THEOREMS = [
     "KrroodVerif.Dom.C03_cex_interleaved",
     "KrroodVerif.Dom.C03_cex_runtime_error",
     "KrroodVerif.Dom.C03_sequential_decidable_nonvacuous",
+    "KrroodVerif.RuleHist.C03_rules_sequential",
+    "KrroodVerif.RuleHist.C03_rules_interleaved",
+    "KrroodVerif.RuleHist.C03_cex_rule_abandoned",
+    "KrroodVerif.RuleHist.C03_cex_rule_suspended",
+    "KrroodVerif.RuleHist.C03_cex_rule_stale_parent",
+    # RULE_THEOREMS
 ]
-MODEL_FUNCTION = "Dom.run / Dom.step / Dom.qnext (Model/Dom.lean); Eql.evalQuery for isolated results"
+MODEL_FUNCTION = ("Dom.run / Dom.step / Dom.qnext (Model/Dom.lean); Eql.evalQuery for isolated results; "
+                  "RuleHist.model = RuleHist.run/step/evalG/growStep (Model/RuleHistory.lean) for rule-query histories")
 TRUSTED = [
     "Lean 4.33 kernel; axioms of each theorem listed under coverage.theorems",
-    "hand-written models Model/Dom.lean (HashedIterable cursors) and Model/Eql.lean",
+    "hand-written models Model/Dom.lean (HashedIterable cursors), Model/Eql.lean and Model/RuleHistory.lean (resumable "
+    "generators of the conclusion selectors over the node state of Model/Rule.lean, _reset_evaluation_state_, stale "
+    "_eval_parent_ during tree surgery)",
     "this correspondence harness (schedule enumeration against real query iterators), the S-expression driver",
 ]
 ASSUMPTIONS = [
     "single-threaded use (the engine and the property are single-threaded); CPython dict-view iteration raises "
     "RuntimeError when the dict grew since the view iterator was created",
     "domains contain pairwise distinct objects",
+    "rule histories: the abstraction of C08 (one rule variable, conditions in_(x.a, [...]), one Add per block); the rule "
+    "tree is grown only at the rule's own level (further `with query:` blocks) and only while no iterator of the query is "
+    "suspended; in histories with overlapping evaluations the variable's domain is completely cached first (otherwise "
+    "F-C03-1 acts on top of the selector state)",
 ]
 RULE = ("corpus; exhaustive interleavings of 2 iterators (domain sizes 1-3, up to 4 next() each, abandonment points) "
         "plus random schedules of 3 iterators; random sequential re-evaluation orders of 1-3 generated queries sharing "
-        "variables with partial consumption; non-trivial = some iterator returns at least one element and the "
+        "variables with partial consumption; rule-query histories (one in four random cases): generated C08 programs "
+        "with <= 6 blocks under sequential histories with abandonment, histories that grow the tree between "
+        "evaluations, overlapping histories of 2-3 iterators plus complete evaluations, and results handed out before "
+        "/ read after another evaluation; non-trivial = some iterator returns at least one element and the "
         "schedule has >=2 iterators or >=2 evaluations; distinct by case text")
 
 
@@ -256,9 +277,274 @@ def _multi_case(world, queries, order, sharecond=False, shareattr=False):
                 {"world": world, "queries": queries, "order": order, "sharecond": sharecond, "shareattr": shareattr})
 
 
+
+# ---------------------------------------------------------------------------------------------- rule-query histories
+
+def _R():
+    from props import c08 as R
+    return R
+
+
+def _rh_show(dom, root, ops, warm):
+    parts = []
+    for o in ops:
+        if o[0] == "grow":
+            parts.append("(grow " + " ".join(k.show() for k in o[1]) + ")")
+        else:
+            parts.append(f"({o[0]} {o[1]})")
+    return ("(rhist (dom" + "".join(f" {d}" for d in dom) + ") " + root.show() + " (ops " + " ".join(parts) + ")" +
+            (" (warm)" if warm else "") + ")")
+
+
+def _rh_parse(line):
+    R = _R()
+    s = R._read(R._tokens(line), 0)[0]
+    assert s[0] == "rhist"
+    d = {p[0]: p for p in s[1:]}
+    _, root = R.parse_prog("(prog " + _unparse(d["dom"]) + " " + _unparse(d["root"]) + ")")
+    dom = [int(x) for x in d["dom"][1:]]
+    ops = []
+    for o in d["ops"][1:]:
+        if o[0] == "grow":
+            kids = []
+            for k in o[1:]:
+                _, r = R.parse_prog("(prog (dom) (root (h) (c) " + _unparse(k) + "))")
+                kids.append(r.kids[0])
+            ops.append(("grow", kids))
+        else:
+            ops.append((o[0], int(o[1])))
+    return dom, root, ops, "warm" in d
+
+
+def _rh_kid(rng, dom, counter, nested=True):
+    R = _R()
+    b = R.Block(rng.choice(["ref", "alt", "next"]), [d for d in dom if rng.random() < 0.5], [], [])
+    if rng.random() < 0.9:
+        b.concl = [counter[0]]
+        counter[0] += 1
+    if nested and rng.random() < 0.25:
+        b.kids.append(_rh_kid(rng, dom, counter, nested=False))
+    return b
+
+
+def _rule_hist(rng, flavour=None):
+    R = _R()
+    flavour = flavour or rng.choice(["sequential", "sequential", "grow", "grow", "interleaved", "interleaved", "handed-out"])
+    while True:
+        dom, root = R._gen_prog(rng, rng.random() < 0.5)
+        if root.size() <= 6:
+            break
+    counter = [max([c for b in root.walk() for c in b.concl] + [-1]) + 1]
+    ops, nid, n = [], [0], len(dom)
+
+    def new():
+        nid[0] += 1
+        return nid[0] - 1
+
+    warm = flavour in ("interleaved", "handed-out") or rng.random() < 0.3
+    if flavour == "sequential":
+        for _ in range(rng.randrange(2, 5)):
+            r = rng.random()
+            if r < 0.3:
+                ops.append(("full", new()))
+            elif r < 0.88:
+                i = new()
+                ops.append(("start", i))
+                ops += [("next", i)] * rng.randrange(0, 2 * n + 2)
+                if rng.random() < 0.6:
+                    ops.append(("abandon", i))
+            else:
+                ops.append(("grow", [_rh_kid(rng, dom, counter)]))
+    elif flavour == "grow":
+        for _ in range(rng.randrange(2, 6)):
+            if rng.random() < 0.5:
+                ops.append(("full", new()))
+            else:
+                ops.append(("grow", [_rh_kid(rng, dom, counter) for _ in range(rng.choice([1, 1, 1, 2]))]))
+        ops.append(("full", new()))
+        if rng.random() < 0.5:
+            ops.append(("full", new()))
+    elif flavour == "handed-out":
+        # results requested (and partly read), the same query evaluated by someone else, then the rest is read
+        i = new()
+        ops.append(("start", i))
+        ops += [("next", i)] * rng.choice([0, 0, 1, 2, 3])
+        for _ in range(rng.choice([1, 1, 2])):
+            ops.append(("full", new()))
+        ops += [("next", i)] * rng.randrange(1, 2 * n + 2)
+        if rng.random() < 0.4:
+            ops.append(("full", new()))
+    else:
+        k = rng.choice([2, 2, 3])
+        ids = [new() for _ in range(k)]
+        live, started = set(), []
+        for _ in range(rng.randrange(4, 14)):
+            r = rng.random()
+            if (r < 0.2 and len(started) < k) or not live:
+                if len(started) < k:
+                    i = ids[len(started)]
+                    started.append(i)
+                    live.add(i)
+                    ops.append(("start", i))
+                else:
+                    ops.append(("full", new()))
+                continue
+            if r < 0.3:
+                ops.append(("full", new()))
+                continue
+            i = rng.choice(sorted(live))
+            if r < 0.92:
+                ops.append(("next", i))
+            else:
+                ops.append(("abandon", i))
+                live.discard(i)
+    kinds = sorted({b.kind for b in root.walk()} - {"root"})
+    return Case(_rh_show(dom, root, ops, warm), ("rhist", flavour, "kinds:" + "+".join(kinds), f"dom{n}",
+                                                "warm" if warm else "cold"), "random")
+
+
+class _RuleQuery:
+    """a rule query written from a C08 program against the real API; can be grown by further `with query:` blocks"""
+
+    def __init__(self, dom, root):
+        from krrood.entity_query_language.entity import let, entity, inference, in_
+        from krrood.entity_query_language.quantify_entity import an
+        R = _R()
+        P, _Q, View, kls, _kys = R._classes()
+        self.kls, self.in_, self.inference, self.root = kls, in_, inference, root
+        self.objs = {d: P(100 + d) for d in dom}
+        self.back = {id(o): d for d, o in self.objs.items()}
+        self.x = let(P, [self.objs[d] for d in dom], name="x")
+        self.views = inference(View)()
+        self.query = an(entity(self.views, self.cond(root)))
+        for session in root.sessions():
+            self.session(session)
+
+    def cond(self, b):
+        return self.in_(self.x.a, [-1] + [100 + e for e in b.holds])
+
+    def add(self, c):
+        from krrood.entity_query_language.conclusion import Add
+        Add(self.views, self.inference(self.kls[c])(src=self.x))
+
+    def body(self, b):
+        from krrood.entity_query_language.rule import refinement, alternative, next_rule
+        fn = {"ref": refinement, "alt": alternative, "next": next_rule}
+        for c in b.concl:
+            self.add(c)
+        for k in b.kids:
+            with fn[k.kind](self.cond(k)):
+                self.body(k)
+
+    def session(self, toks):
+        from krrood.entity_query_language.rule import refinement, alternative, next_rule
+        fn = {"ref": refinement, "alt": alternative, "next": next_rule}
+        with self.query:
+            for tok in toks:
+                if tok == "here":
+                    for c in self.root.concl:
+                        self.add(c)
+                else:
+                    with fn[tok.kind](self.cond(tok)):
+                        self.body(tok)
+
+    def row(self, r):
+        return f"{type(r)._k}:{self.back[id(r.src)]}"
+
+
+def _run_rhist(line: str) -> str:
+    from krrood.entity_query_language.symbolic import SymbolicExpression
+    dom, root, ops, warm = _rh_parse(line)
+    grown = []
+
+    def build():
+        q = _RuleQuery(dom, root)
+        for kids in grown:
+            q.session(kids)
+        return q
+
+    def fresh_rows():
+        """the isolated run: the same `with` blocks on a fresh query object, evaluated alone"""
+        try:
+            fq = build()
+            return [fq.row(r) for r in fq.query.evaluate()]
+        except Exception as e:  # noqa: BLE001
+            SymbolicExpression._symbolic_expression_stack_.clear()
+            return "exc:" + type(e).__name__
+
+    q = _RuleQuery(dom, root)
+    if warm:
+        from krrood.entity_query_language.entity import entity
+        from krrood.entity_query_language.quantify_entity import an
+        list(an(entity(q.x)).evaluate())  # the variable's domain is completely cached from here on
+    its, fresh, cnt, out = {}, {}, {}, []
+    for o in ops:
+        if o[0] == "grow":
+            try:
+                q.session(o[1])
+            except Exception:  # noqa: BLE001
+                SymbolicExpression._symbolic_expression_stack_.clear()
+            grown.append(o[1])
+            out.append("-")
+        elif o[0] == "start":
+            its[o[1]] = iter(q.query.evaluate())
+            fresh[o[1]], cnt[o[1]] = None, 0
+            out.append("-")
+        elif o[0] == "abandon":
+            it = its.pop(o[1], None)
+            if it is not None and hasattr(it, "close"):
+                it.close()
+            del it  # (an iterator without close() is abandoned by dropping it)
+            out.append("-")
+        elif o[0] == "full":
+            fr = fresh_rows()
+            try:
+                got = [q.row(r) for r in q.query.evaluate()]
+            except Exception as e:  # noqa: BLE001
+                got = "exc:" + type(e).__name__
+            its.pop(o[1], None)
+            out.append("=" if got == fr else ("![" + ",".join(got) + "]" if isinstance(got, list) else "!err"))
+        else:
+            i = o[1]
+            it = its.get(i)
+            if it is None:  # closed / never started: the end, here and in the isolated run
+                out.append("=")
+                continue
+            if fresh[i] is None:
+                fresh[i] = fresh_rows()
+            fr = fresh[i]
+            more = isinstance(fr, list) and cnt[i] < len(fr)
+            exp = fr[cnt[i]] if more else ("stop" if isinstance(fr, list) else "err")
+            try:
+                got = q.row(next(it))
+            except StopIteration:
+                got = "stop"
+            except Exception:  # noqa: BLE001
+                got = "err"
+            if more:
+                cnt[i] += 1
+            out.append("=" if got == exp else "!" + got)
+    return " ".join(out)
+
+
+def compare(impl: str, other: str) -> bool:
+    """equality; in a rule-history observation a model token `a~b` stands for exactly one of its candidates (two
+    conclusions in one Python set: CPython's set order decides) and `*` for any"""
+    if impl == other:
+        return True
+    b = other.split(" ")
+    if "~" not in other and "*" not in b:
+        return False
+    a = impl.split(" ")
+    return len(a) == len(b) and all(y == "*" or x in y.split("~") for x, y in zip(a, b))
+
+
 def generate(rng, tier, n):
     out = _exhaustive_scheds(tier)
     for i in range(n):
+        if i % 4 == 3:
+            out.append(_rule_hist(rng))
+            continue
         r = rng.random()
         if r < 0.25:
             out.append(_random_sched(rng))
@@ -281,7 +567,7 @@ def revive(case: Case) -> Case:
     if case.payload is not None:
         return case
     s = G.parse_sexp(case.line)
-    if s[0] in ("sched", "sharedsub", "rulereeval"):
+    if s[0] in ("sched", "sharedsub", "rulereeval", "rhist"):
         return case
     d = {(p[0] if isinstance(p, list) else p): (p[1:] if isinstance(p, list) else []) for p in s[1:]}
     fake = G.parse_query("(q (sel) (objs " + " ".join(_unparse(o) for o in d["objs"]) + ") (doms " +
@@ -303,13 +589,53 @@ def _unparse(s) -> str:
 def nontrivial(case: Case, spec: str) -> bool:
     if case.line in ("(sharedsub)", "(rulereeval)"):
         return False
+    if case.line.startswith("(rhist"):
+        return case.line.count("(next") + case.line.count("(full") >= 2 and case.line.count("(h ") >= 2
     if case.line.startswith("(sched"):
         return any(t.isdigit() for t in spec.split()) and case.line.count("(start") >= 2
     return "(" in spec and spec.count(";") >= 1
 
 
+def _shrink_rhist(case: Case):
+    dom, root, ops, warm = _rh_parse(case.line)
+    for i in range(len(ops)):
+        yield Case(_rh_show(dom, root, ops[:i] + ops[i + 1:], warm), case.tags, "shrink")
+
+    def paths(b, pre=()):
+        for i, k in enumerate(b.kids):
+            yield pre + (i,)
+            yield from paths(k, pre + (i,))
+
+    for path in list(paths(root)):
+        r = root.copy()
+        b = r
+        for j in path[:-1]:
+            b = b.kids[j]
+        b.drop_kid(path[-1])
+        yield Case(_rh_show(dom, r, ops, warm), case.tags, "shrink")
+    if len(dom) > 1:
+        for d in dom:
+            r = root.copy()
+            for b in r.walk():
+                b.holds = [e for e in b.holds if e != d]
+            ops2 = []
+            for o in ops:
+                if o[0] == "grow":
+                    ks = [k.copy() for k in o[1]]
+                    for k in ks:
+                        for b in k.walk():
+                            b.holds = [e for e in b.holds if e != d]
+                    ops2.append(("grow", ks))
+                else:
+                    ops2.append(o)
+            yield Case(_rh_show([e for e in dom if e != d], r, ops2, warm), case.tags, "shrink")
+
+
 def shrink(case: Case):
     s = G.parse_sexp(case.line)
+    if s[0] == "rhist":
+        yield from _shrink_rhist(case)
+        return
     if s[0] != "sched":
         return
     d = {p[0]: p[1:] for p in s[1:]}
@@ -464,8 +790,15 @@ def _one(case: Case) -> str:
             return _shared_sub()
         if case.line.startswith("(sched"):
             return _run_sched(case.line)
+        if case.line.startswith("(rhist"):
+            return _run_rhist(case.line)
         return _run_multi(revive(case).payload)
     except Exception as e:  # noqa: BLE001
+        try:
+            from krrood.entity_query_language.symbolic import SymbolicExpression
+            SymbolicExpression._symbolic_expression_stack_.clear()
+        except Exception:  # noqa: BLE001
+            pass
         return "exc:" + type(e).__name__
 
 
